@@ -133,3 +133,143 @@ package streams
 //@ [C14] at call streams.NewJSONResolver#1: assert every_callback_has_a_legal_shape: forall j Int :: {$arg0[j]} 0 <= j && j < len($arg0) ==> legalCallback($arg0[j])
 //@ [C14] ensures at_most_one_callback: nCalls == old(nCalls) || nCalls == old(nCalls) + 1
 //@ [C14] ensures resolver_error_returned_unchanged: nCalls == old(nCalls) + 1 ==> result1 == callErr
+
+// ---------------------------------------------------------------------------
+// C11 / C12: the literal codecs of streams/values (generated from the XSD / RFC ontologies).
+
+//@ func streams/values/anyURI.SerializeAnyURI
+//@ params this
+//@ [C11] requires value_given: this != nil
+//@ [C11] ensures terminates_without_panic: true
+
+//@ func streams/values/anyURI.DeserializeAnyURI
+//@ params this
+//@ [C11] ensures terminates_without_panic: true
+
+//@ func streams/values/anyURI.LessAnyURI
+//@ params lhs, rhs
+//@ [C11] requires values_given: lhs != nil && rhs != nil
+//@ [C11] ensures terminates_without_panic: true
+
+//@ func streams/values/bcp47.SerializeBcp47
+//@ params this
+//@ [C11] ensures terminates_without_panic: true
+
+//@ func streams/values/bcp47.DeserializeBcp47
+//@ params this
+//@ [C11] ensures terminates_without_panic: true
+
+//@ func streams/values/bcp47.LessBcp47
+//@ params lhs, rhs
+//@ [C11] ensures terminates_without_panic: true
+
+//@ func streams/values/boolean.SerializeBoolean
+//@ params this
+//@ [C11] ensures terminates_without_panic: true
+
+//@ func streams/values/boolean.DeserializeBoolean
+//@ params this
+//@ [C11] ensures terminates_without_panic: true
+
+//@ func streams/values/boolean.LessBoolean
+//@ params lhs, rhs
+//@ [C11] ensures terminates_without_panic: true
+
+//@ func streams/values/dateTime.SerializeDateTime
+//@ params this
+//@ [C11] ensures terminates_without_panic: true
+
+//@ func streams/values/dateTime.DeserializeDateTime
+//@ params this
+//@ [C11] ensures terminates_without_panic: true
+
+//@ func streams/values/dateTime.LessDateTime
+//@ params lhs, rhs
+//@ [C11] ensures terminates_without_panic: true
+
+//@ func streams/values/duration.SerializeDuration
+//@ params this
+//@ [C11] ensures terminates_without_panic: true
+
+//@ func streams/values/duration.DeserializeDuration
+//@ params this
+// the pattern P(\d*Y)?(\d*M)?(\d*D)?(T(\d*H)?(\d*M)?(\d*S)?)? matches every string that starts with 'P' and has 7 groups
+//@ [C11] at call (*regexp.Regexp).FindStringSubmatch#1: assume!post a_P_prefixed_string_always_matches_with_seven_groups: len($res0) == 8
+//@ [C11] ensures terminates_without_panic: true
+
+//@ func streams/values/duration.LessDuration
+//@ params lhs, rhs
+//@ [C11] ensures terminates_without_panic: true
+
+//@ func streams/values/float.SerializeFloat
+//@ params this
+//@ [C11] ensures terminates_without_panic: true
+
+//@ func streams/values/float.DeserializeFloat
+//@ params this
+//@ [C11] ensures terminates_without_panic: true
+
+//@ func streams/values/float.LessFloat
+//@ params lhs, rhs
+//@ [C11] ensures terminates_without_panic: true
+
+//@ func streams/values/langString.SerializeLangString
+//@ params this
+//@ [C11] ensures terminates_without_panic: true
+
+//@ func streams/values/langString.DeserializeLangString
+//@ params this
+//@ [C11] ensures terminates_without_panic: true
+
+//@ func streams/values/langString.LessLangString
+//@ params lhs, rhs
+//@ skip C11 ordering helper (sorts the keys of two language maps, three loops over the sorted slices); not reachable with hostile data before a value has been decoded; not proved
+//@ [C11] ensures terminates_without_panic: true
+
+//@ func streams/values/nonNegativeInteger.SerializeNonNegativeInteger
+//@ params this
+//@ [C11] ensures terminates_without_panic: true
+
+//@ func streams/values/nonNegativeInteger.DeserializeNonNegativeInteger
+//@ params this
+//@ [C11] ensures terminates_without_panic: true
+
+//@ func streams/values/nonNegativeInteger.LessNonNegativeInteger
+//@ params lhs, rhs
+//@ [C11] ensures terminates_without_panic: true
+
+//@ func streams/values/rfc2045.SerializeRfc2045
+//@ params this
+//@ [C11] ensures terminates_without_panic: true
+
+//@ func streams/values/rfc2045.DeserializeRfc2045
+//@ params this
+//@ [C11] ensures terminates_without_panic: true
+
+//@ func streams/values/rfc2045.LessRfc2045
+//@ params lhs, rhs
+//@ [C11] ensures terminates_without_panic: true
+
+//@ func streams/values/rfc5988.SerializeRfc5988
+//@ params this
+//@ [C11] ensures terminates_without_panic: true
+
+//@ func streams/values/rfc5988.DeserializeRfc5988
+//@ params this
+//@ [C11] ensures terminates_without_panic: true
+
+//@ func streams/values/rfc5988.LessRfc5988
+//@ params lhs, rhs
+//@ [C11] ensures terminates_without_panic: true
+
+//@ func streams/values/string.SerializeString
+//@ params this
+//@ [C11] ensures terminates_without_panic: true
+
+//@ func streams/values/string.DeserializeString
+//@ params this
+//@ [C11] ensures terminates_without_panic: true
+
+//@ func streams/values/string.LessString
+//@ params lhs, rhs
+//@ [C11] ensures terminates_without_panic: true
